@@ -75,6 +75,12 @@ func (t DataType) Bytes(endian binary.ByteOrder, value interface{}, length int64
 		t -= asetime.DurationFromDateTime(asetime.Epoch1900())
 
 		days := t.Days()
+		if t < 0 && asetime.ASEDuration(days)*asetime.Day != t {
+			// Days truncates towards zero, the day count of a
+			// timestamp before the epoch must be rounded down so the
+			// time of day stays positive.
+			days--
+		}
 
 		bs := make([]byte, length)
 		switch length {
